@@ -26,6 +26,7 @@ CONSTANTS IDs, MaxDg, MaxRep, MaxEnt, Idle, MaxT, MaxFault,
           GuardCloseOnce,       \* CloseWithErr returns early when already closed
           TouchOnReply,         \* reply loop refreshes the last-activity time
           CheckEveryDgram,      \* policy checked for every datagram (not only while the cache has room)
+          LockAcrossDial,       \* TRUE: connLock is held from the closed-check to the attachment of the socket (FALSE: released during the dial)
           StampOwnID,           \* reply loop stamps the entry's own ID
           GenHist,              \* record the environment's actions in hist (generator configs)
           SplitExit             \* TRUE: ExitFunc's event and map delete are separate steps (finer, bigger)
@@ -91,7 +92,11 @@ RxTouch ==                                 \* Last.Set(now); Defragger
   /\ rx' = [rx EXCEPT !.pc = IF ~rx.complete THEN "idle" ELSE IF ents[rx.ent].conn = 0 THEN "init" ELSE "check"]
   /\ NoEvent /\ UNCHANGED <<map, socks, rl, sw, now, ndg, nrep, nfault, down>>
 
-\* initConn [connLock]: closed? -> error; hook; dial (policy applies to the first destination through the dial)
+\* initConn [connLock]: closed? -> error; hook; dial (policy applies to the first destination through the dial).
+\* The dial itself may take long (resolver, hook): it ends in RxAttach.  While it runs the lock is held, so every
+\* CloseWithErr on this entry waits (LockBusy); the mutant releases the lock and does not look at `closed` again.
+LockBusy(e) == LockAcrossDial /\ rx.pc = "attach" /\ rx.ent = e
+
 RxInit(fail) ==
   /\ rx.pc = "init"
   /\ IF fail /\ ~(ents[rx.ent].closed /\ GuardClosedInInit) THEN H([op |-> "dialerr", sid |-> rx.sid, dst |-> 0, complete |-> FALSE, e |-> 0, src |-> 0]) ELSE UNCHANGED hist
@@ -102,24 +107,29 @@ RxInit(fail) ==
      IN
      IF ents[e].closed /\ GuardClosedInInit
      THEN /\ rx' = [rx EXCEPT !.pc = "idle"]
-          /\ NoEvent /\ UNCHANGED <<ents, socks, rl, nfault>>
+          /\ NoEvent /\ UNCHANGED <<nfault>>
      ELSE IF fail \/ ~allowed
      THEN /\ (fail => nfault < MaxFault)
           /\ nfault' = IF fail THEN nfault + 1 ELSE nfault
           /\ rx' = [rx EXCEPT !.pc = "cA", !.nilerr = FALSE]
           /\ Feed2(Base("Hook") @@ [dst |-> rx.dst, to |-> to], Base("Dial") @@ [dst |-> target, sock |-> 0, ok |-> FALSE])
-          /\ UNCHANGED <<ents, socks, rl>>
-     ELSE /\ Len(socks) < MaxEnt
-          /\ socks' = Append(socks, [ent |-> e, open |-> TRUE])
-          /\ ents' = [ents EXCEPT ![e].conn = Len(socks) + 1,
-                                  ![e].to = IF to # rx.dst THEN to ELSE 0,
-                                  ![e].orig = IF to # rx.dst THEN rx.dst ELSE 0,
-                                  ![e].acl = IF to # rx.dst THEN {} ELSE {rx.dst}]
-          /\ rl' = [rl EXCEPT ![e].pc = "read"]
-          /\ rx' = [rx EXCEPT !.pc = "check"]
-          /\ Feed2(Base("Hook") @@ [dst |-> rx.dst, to |-> to], Base("Dial") @@ [dst |-> target, sock |-> Len(socks) + 1, ok |-> TRUE])
-          /\ UNCHANGED nfault
-  /\ UNCHANGED <<map, sw, now, ndg, nrep, down>>
+     ELSE /\ rx' = [rx EXCEPT !.pc = "attach"]
+          /\ NoEvent /\ UNCHANGED nfault
+  /\ UNCHANGED <<ents, socks, rl, map, sw, now, ndg, nrep, down>>
+
+RxAttach ==                                \* the dial returned: e.conn = conn; go receiveLoop(); unlock
+  /\ rx.pc = "attach" /\ Len(socks) < MaxEnt
+  /\ LET e == rx.ent
+         to == HookMap[rx.dst]
+     IN /\ socks' = Append(socks, [ent |-> e, open |-> TRUE])
+        /\ ents' = [ents EXCEPT ![e].conn = Len(socks) + 1,
+                                ![e].to = IF to # rx.dst THEN to ELSE 0,
+                                ![e].orig = IF to # rx.dst THEN rx.dst ELSE 0,
+                                ![e].acl = IF to # rx.dst THEN {} ELSE {rx.dst}]
+        /\ rl' = [rl EXCEPT ![e].pc = "read"]
+        /\ rx' = [rx EXCEPT !.pc = "check"]
+        /\ Feed2(Base("Hook") @@ [dst |-> rx.dst, to |-> to], Base("Dial") @@ [dst |-> to, sock |-> Len(socks) + 1, ok |-> TRUE])
+  /\ UNCHANGED <<map, sw, now, ndg, nrep, nfault, down, hist>>
 
 \* checkAddr + WriteTo
 RxCheckWrite ==
@@ -217,7 +227,7 @@ RlSend(e, fail) ==
   /\ UNCHANGED <<ents, map, socks, rx, sw, now, ndg, nrep, down>>
 
 RlCA(e) ==
-  /\ rl[e].pc = "cA"
+  /\ rl[e].pc = "cA" /\ ~LockBusy(e)
   /\ UNCHANGED hist
   /\ LET r == CloseA(e) IN
        /\ ents' = r[1] /\ socks' = r[2]
@@ -252,7 +262,7 @@ SwNext ==
      ELSE sw' = [sw EXCEPT !.pc = "cA", !.ent = Head(sw.todo), !.todo = Tail(sw.todo)]
   /\ NoEvent /\ UNCHANGED <<ents, map, socks, rx, rl, now, ndg, nrep, nfault, down>>
 SwCA ==
-  /\ sw.pc = "cA"
+  /\ sw.pc = "cA" /\ ~LockBusy(sw.ent)
   /\ UNCHANGED hist
   /\ LET r == CloseA(sw.ent) IN
        /\ ents' = r[1] /\ socks' = r[2]
@@ -311,7 +321,7 @@ Init ==
 
 Next ==
   \/ \E sid \in IDs, dst \in Dsts, c \in BOOLEAN : Arrive(sid, dst, c)
-  \/ RxLook \/ RxTouch \/ \E f \in BOOLEAN : RxInit(f)
+  \/ RxLook \/ RxTouch \/ (\E f \in BOOLEAN : RxInit(f)) \/ RxAttach
   \/ RxCheckWrite \/ RxCA \/ RxCB \/ RxCC \/ RxNext \/ ConnLoss
   \/ \E e \in 1..Len(ents) :
         \/ \E src \in Dsts : RlRecv(e, src)
